@@ -967,8 +967,49 @@ def quantity_ops_search():
     return None
 
 
-@replayer(r"Quantity\..*")
+def si_ops_search():
+    """Native oracle for generic SI values: asSI carries the class signature; products / quotients of SI values and quantities have
+    the product / quotient as value and the elementwise sum / difference as signature; as_quantity succeeds exactly on equal signatures."""
+    import pydsol.core.units as u
+    Q = u.QUANTITIES
+    for i, a in enumerate(Q):
+        x = a(3.0)
+        xs = x.asSI()
+        if list(xs.sisig()) != list(a.sisig()) or float(xs) != x.si:
+            return {"class": a.__name__, "failure": "asSI() gives signature %s value %r; the class has %s, value %r" % (list(xs.sisig()), float(xs), list(a.sisig()), x.si)}
+        for b in Q[i % 3::3]:
+            y = b(2.0)
+            for name, f, sign, val in (("*", lambda p, q_: p * q_, 1, x.si * y.si), ("/", lambda p, q_: p / q_, -1, x.si / y.si)):
+                want = [s1 + sign * s2 for s1, s2 in zip(a.sisig(), b.sisig())]
+                for left, right in ((xs, y), (xs, y.asSI()), (x, y.asSI())):
+                    try:
+                        r = f(left, right)
+                    except Exception as e:
+                        return {"left": a.__name__, "right": b.__name__, "failure": "%s raised %s: %s" % (name, type(e).__name__, e)}
+                    if list(r.sisig()) != want or float(r) != val:
+                        return {"left": a.__name__, "right": b.__name__, "operands": [type(left).__name__, type(right).__name__],
+                                "failure": "%s gives value %r signature %s; expected %r and %s" % (name, float(r), list(r.sisig()), val, want)}
+            try:
+                c = xs.as_quantity(b)
+                ok = True
+            except ValueError:
+                ok = False
+            except Exception as e:
+                return {"si": a.__name__, "target": b.__name__, "failure": "as_quantity raised %s" % type(e).__name__}
+            same = list(a.sisig()) == list(b.sisig())
+            if ok != same or (ok and (type(c) is not b or c.si != x.si)):
+                return {"si": a.__name__, "target": b.__name__,
+                        "failure": "as_quantity(%s) of a value with the signature of %s %s; the signatures are %s"
+                                   % (b.__name__, a.__name__, "succeeded" if ok else "was refused", "equal" if same else "different")}
+    return None
+
+
+@replayer(r"Quantity\..*|SI\..*")
 def replay_quantity(rec):
+    if rec.get("function", "").startswith("SI.") or rec.get("function", "").endswith(".asSI"):
+        f = si_ops_search()
+        if f:
+            return {"reproduced": True, "input": f, "observed": f["failure"]}
     f = quantity_ops_search()
     if f:
         return {"reproduced": True, "input": f, "observed": f["failure"]}
